@@ -116,6 +116,15 @@ CLAIMS = {
             "enumerated completely in both tiers, plus a skewed big/small family where the bound binds.",
             "Oracle = DP over (cardinality, sum) states validated against 2^n brute force at start; no time limit.",
             "DESIGN.md 6/C12"),
+    "C16": ("exploration", "model-based testing of operation histories (Hypothesis rule-based state machine with native sequence shrinking + histories generated as data + bounded-exhaustive sequences) against a list-of-(sum, items) model",
+            "Histories of new / add (indices -n..n-1, zero-valued items) / copy / sort / add-empty / remove / concatenate / combine over a pool of "
+            "up to six live bins-arrays, for both managers, respecting the hand-over discipline of the statement. After every step every live "
+            "array must equal its model (number of bins, each sum, each item list, numitems), the call's arguments must be unaltered where "
+            "documented so, sorting must permute sums and contents together into non-decreasing order, and no two live arrays may share a "
+            "sums buffer or a list object (independence of copies in both directions). Every sequence of <=3 (quick) / <=4 (thorough) "
+            "actions from an alphabet of 18 concrete actions is enumerated completely.",
+            "concatenate / combine never applied to an array and itself; order among tied bins after sort is free.",
+            "DESIGN.md 6/C16"),
     "C19": ("exploration", "property-based testing with an exception oracle (negative testing with a positive control)",
             "Valid packing inputs with 1-3 oversize items inserted at generated positions for all five packers x five input "
             "formats x all ten output types must raise ValueError; cbldm with exactly one invalid argument (bin count, "
